@@ -27,13 +27,13 @@ from vc.harness import Task
 
 ID = "C25"
 LEVEL = "exploration"
-TECHNIQUE = "bounded search: real BrushConstraint2D under real JAX on seeded random designs, numpy morphological-opening oracle, watchdog for termination"
+TECHNIQUE = "bounded search (not a proof): real BrushConstraint2D under real JAX on seeded random designs, numpy morphological-opening oracle, watchdog for termination; plus a bounded one-step check of the loop invariant (disjoint footprints) by applying the real body_fn to sampled invariant states"
 DZ_MOD = "fdtdx.objects.device.parameters.discretization"
 MODULES = []
 FILES = ["src/fdtdx/objects/device/parameters/discretization.py", "src/fdtdx/objects/device/parameters/binary_transform.py"]
 FUNCTIONS = ["fdtdx.objects.device.parameters.discretization.BrushConstraint2D.__call__ / _generator (bounded only)", "fdtdx.objects.device.parameters.discretization.circular_brush (bounded only)", "fdtdx.objects.device.parameters.binary_transform.dilate_jax (bounded only)"]
 INLINED = []
-STUBS = ["equinox.internal.while_loop is replaced by a Python driver calling the real cond_fun/body_fun ONLY in the termination-measure subset; every other run uses the real loop"]
+STUBS = ["equinox.internal.while_loop is replaced by a Python driver calling the real cond_fun/body_fun ONLY in the termination-measure subset and in the step-invariant tasks (which capture the real cond_fun/body_fun and apply body_fn once to sampled states); every other run uses the real loop"]
 ASSUMPTIONS = [
     "NOTHING is proved deductively for this property: no loop invariant / termination measure for BrushConstraint2D._generator was discharged",
     "bounded domain: circular brushes of diameter 2, 3, 4, 5 (thorough: also 6, 7), 2-D designs from 5x5 to 8x8 (thorough 12x12, 10x16) on each of the three axis orientations, both background indices, seeded normal latent values and two-level (+-1) designs",
@@ -42,9 +42,9 @@ ASSUMPTIONS = [
     "termination is observed (watchdog timeout, strictly growing touch count on a subset), not proved",
 ]
 MIN_OBLIGATIONS = {"quick": 40, "thorough": 40}
-LEVEL_TEXT = "Bounded exploration only: real code on seeded random designs against a numpy oracle; no deductive claim"
+LEVEL_TEXT = "Bounded exploration only: real code on seeded random designs against a numpy oracle, and the real loop body applied once to sampled states satisfying the loop invariant; no deductive claim"
 LEVEL_NOTE = "see ASSUMPTIONS for the exact bounded domain"
-BOUNDED_RULE = "real BrushConstraint2D under real JAX (jit per shape, real equinox while loop) on seeded random designs; oracle: both phases are unions of brush footprints whose in-domain part lies in the phase; watchdog child process for termination"
+BOUNDED_RULE = "real BrushConstraint2D under real JAX (jit per shape, real equinox while loop) on seeded random designs; oracle: both phases are unions of brush footprints whose in-domain part lies in the phase; watchdog child process for termination; step-invariant tasks: real body_fn once from random states with disjoint void/solid footprints"
 WATCHDOG_S = int(os.environ.get("VERIF_C25_WATCHDOG_S", "600"))
 
 
@@ -295,6 +295,73 @@ def _bounded_task(diam, shapes, n_per, seed, stepwise_n):
     return body
 
 
+class _Capture:
+    """hands back the loop's initial value and keeps the real cond_fun / body_fun (closed over the design)"""
+
+    def while_loop(self, cond_fun, body_fun, init_val, **kw):
+        self.cond, self.body = cond_fun, body_fun
+        return init_val
+
+
+def _step_invariant_task(diam, shapes, n_designs, n_states, seed):
+    """Bounded ONE-STEP check of the loop invariant on sampled states (not only on states a run from the empty
+    state happens to visit):   I(v, s):  the footprints of the void touches and of the solid touches are disjoint.
+    From a random state satisfying I (random touch sets grown greedily under I) with the exit condition false,
+    one application of the REAL body_fn must (a) keep I, (b) keep every earlier touch, (c) add at least one touch.
+    I at exit gives 'each phase is a union of brush footprints' (every pixel is covered, by one phase only)."""
+
+    def body(c, inp):
+        import importlib
+
+        import jax.numpy as jnp
+        import numpy as np
+
+        dz = importlib.import_module(DZ_MOD)
+        rng = np.random.default_rng([seed, int(diam * 10), 2525])
+        bsize = int(np.ceil(diam)) + (1 - int(np.ceil(diam)) % 2)
+        for shape in [s_ for s_ in shapes if min(s_) >= bsize]:
+            bad, n_checked, n_case = None, 0, 0
+            for d in _designs(rng, shape, n_designs):
+                mod, brush = _module(diam, 2, 0, _shape3(shape, 2))
+                cap = _Capture()
+                saved = dz.eqxi
+                dz.eqxi = cap
+                try:
+                    mod({"p": jnp.asarray(np.asarray(d, dtype=np.float64).reshape(_shape3(shape, 2)))})
+                finally:
+                    dz.eqxi = saved
+
+                def dil(x):
+                    return np.asarray(dz.dilate_jax(jnp.asarray(x), brush)).astype(bool)
+
+                for _ in range(n_states):
+                    v, s_ = np.zeros(shape, bool), np.zeros(shape, bool)
+                    for _k in range(int(rng.integers(1, 2 + shape[0] * shape[1] // 6))):
+                        pos = (int(rng.integers(0, shape[0])), int(rng.integers(0, shape[1])))
+                        tgt, oth = (v, s_) if rng.random() < 0.5 else (s_, v)
+                        t2 = tgt.copy()
+                        t2[pos] = True
+                        if not (dil(t2) & dil(oth)).any():
+                            tgt[pos] = True
+                    state = (jnp.asarray(v), jnp.asarray(s_))
+                    if not bool(cap.cond(state)):
+                        continue
+                    nv, ns = (np.asarray(a).astype(bool) for a in cap.body(state))
+                    n_checked += 1
+                    why = None
+                    if (dil(nv) & dil(ns)).any():
+                        why = "void and solid footprints overlap after the step"
+                    elif (v & ~nv).any() or (s_ & ~ns).any():
+                        why = "an earlier touch was dropped"
+                    elif int(nv.sum() + ns.sum()) <= int(v.sum() + s_.sum()):
+                        why = "no touch was added although the exit condition is false"
+                    if why and bad is None:
+                        bad = {"diameter": diam, "shape": list(shape), "design": np.asarray(d).ravel().tolist(), "touch_void": v.astype(int).ravel().tolist(), "touch_solid": s_.astype(int).ravel().tolist(), "why": why}
+            c.bounded("BrushConstraint2D/step_invariant:footprints_stay_disjoint_and_touches_grow", bad is None, case={"diameter": diam, "shape": list(shape), "states_checked": n_checked}, witness=bad)
+
+    return body
+
+
 def _oracle_selftest(c, inp):
     """the oracle accepts genuine brush unions and rejects sub-brush features"""
     import importlib
@@ -327,6 +394,7 @@ def tasks(tier, seed):
     shapes = [(5, 5), (6, 8), (8, 8)] + ([(12, 12), (10, 16)] if thorough else [])
     for d in diams:
         out[f"brush_d{d}"] = Task(_bounded_task(d, shapes, 40 if thorough else 12, seed, 4 if thorough else 2), modules=[], bounded=True)
+        out[f"step_invariant_d{d}"] = Task(_step_invariant_task(d, [(8, 8), (7, 10)] + ([(12, 12)] if thorough else []), 12 if thorough else 4, 60 if thorough else 25, seed), modules=[], bounded=True)
     return out
 
 
@@ -337,6 +405,28 @@ def replay(key, obligation, witness):
     w = witness or {}
     if "design" not in w:
         return False, "no witness design"
+    if "touch_void" in w:  # one-step invariant witness: re-run the real body on the recorded state
+        import importlib
+
+        import jax.numpy as jnp
+
+        dz = importlib.import_module(DZ_MOD)
+        shape = tuple(w["shape"])
+        d = np.array(w["design"], dtype=np.float64).reshape(shape)
+        mod, brush = _module(w["diameter"], 2, 0, _shape3(shape, 2))
+        cap = _Capture()
+        saved = dz.eqxi
+        dz.eqxi = cap
+        try:
+            mod({"p": jnp.asarray(d.reshape(_shape3(shape, 2)))})
+        finally:
+            dz.eqxi = saved
+        v = np.array(w["touch_void"], dtype=bool).reshape(shape)
+        s_ = np.array(w["touch_solid"], dtype=bool).reshape(shape)
+        nv, ns = (np.asarray(a).astype(bool) for a in cap.body((jnp.asarray(v), jnp.asarray(s_))))
+        dil = lambda x: np.asarray(dz.dilate_jax(jnp.asarray(x), brush)).astype(bool)  # noqa: E731
+        ov = int((dil(nv) & dil(ns)).sum())
+        return ov > 0 or bool((v & ~nv).any() or (s_ & ~ns).any()), f"diameter {w['diameter']} design {shape}: real body_fn from a state with disjoint footprints ({int(v.sum())} void / {int(s_.sum())} solid touches): {ov} pixels covered by both phases after the step"
     shape = tuple(w["shape"])
     d = np.array(w["design"], dtype=np.float64).reshape(shape)
     out, loop, brush = run_stepwise(w["diameter"], w["axis"], w["bg"], d)
